@@ -757,6 +757,10 @@ subroutine solve_t(initial_values, t, min_iter, max_iter, tol, offset, convergen
      return
   end if
 
+  ! No errors so far: `evaluate()` sets the error code each iteration but the
+  ! loop below may not run at all (`max_iter < 1`)
+  error_code = 0
+
   ! Solve
   do iteration = 1, max_iter
 
